@@ -283,9 +283,43 @@ func runC15(ctx *Ctx) *Result {
 
 // runC15Hostile: the hostile scenario family (valid defaulted specs, faults, lag, restarts, re-created
 // sets, caches catching up mid-reconcile) under the panic monitor only.
+// recreateDuringStatusWrite: the set is deleted (and, in one variant, re-created under the same name) in the
+// API while the controller still reconciles the cached old object; its status write is answered with a
+// conflict / not-found and the set cache catches up one event per failed call, so the status updater's retry
+// loop finds the set gone from the lister, or another object under the same name.
+func recreateDuringStatusWrite(recreate bool, pol asv1.PodManagementPolicyType) func(*fam) {
+	return func(f *fam) {
+		w, r := f.w, f.r
+		r.Sets = []string{"web"}
+		p := int32(0)
+		opts := world.SetOpts{Name: "web", Replicas: 2, Policy: pol, Partition: &p, HistLimit: 2}
+		w.Srv.Seed(simapi.Sets, world.NewSet(opts))
+		w.DeliverAll()
+		r.Calm(1)
+		w.Kubelet("web-0", "unready") // the next reconcile has a status to write
+		w.Deliver(simapi.Pods, -1)
+		w.Srv.Remove(simapi.Sets, world.NS, "web")
+		r.Trace = append(r.Trace, fmt.Sprintf("directed: set deleted in the API (re-created: %v), set cache not yet told", recreate))
+		if recreate {
+			w.Srv.Seed(simapi.Sets, world.NewSet(opts))
+		}
+		w.CatchUp, w.CatchUpOneByOne = true, true
+		r.Reconcile("web")
+		r.Reconcile("web")
+		w.CatchUp, w.CatchUpOneByOne = false, false
+		w.DeliverAll()
+		r.Calm(1)
+		f.st.Inc("set_replaced_during_status_write_scenarios")
+	}
+}
+
 func runC15Hostile(ctx *Ctx) *Result {
 	chk := func(v *mon.View, st mon.Stats) []mon.Violation { return nil }
-	run := scenarioFamilyOpt("C15", cfgSlotHeavy, chk, func(v *mon.View) bool { return v.AnyErr || v.R.Err != nil }, nil, true)
+	directed := []func(*fam){
+		recreateDuringStatusWrite(false, asv1.ParallelPodManagement), recreateDuringStatusWrite(true, asv1.ParallelPodManagement),
+		recreateDuringStatusWrite(false, asv1.OrderedReadyPodManagement), recreateDuringStatusWrite(true, asv1.OrderedReadyPodManagement),
+	}
+	run := scenarioFamilyOpt("C15", cfgSlotHeavy, chk, func(v *mon.View) bool { return v.AnyErr || v.R.Err != nil }, directed, true)
 	res := run(ctx)
 	res.Stats["hostile_scenario_reconciles"] = res.Evaluations
 	return res
@@ -357,6 +391,6 @@ func init() {
 			"JSON that the CRD admits but that does not decode into the Go type never reaches the controller (the informer fails earlier) and is skipped"},
 		Cases:            func(t string) int { return n1(t) + scenarioCases(2400, 48000)(t) + scenarioCases(800, 16000)(t) },
 		Run:              both(runC15, n1, both(runC15Hostile, scenarioCases(2400, 48000), runC15Churn)),
-		Floors:           []string{"reconciled_with_nil_partition", "reconciled_with_negative_partition", "without_client_side_defaulting", "with_client_side_defaulting", "annotation_slots_malformed", "hostile_scenario_reconciles", "objects_without_spec", "set_update_events_delivered", "set_delete_events_delivered", "churn_reconciles", "churn_revisions_with_all_digit_hash_label", "populations_with_extreme_ordinals"},
+		Floors:           []string{"reconciled_with_nil_partition", "reconciled_with_negative_partition", "without_client_side_defaulting", "with_client_side_defaulting", "annotation_slots_malformed", "hostile_scenario_reconciles", "objects_without_spec", "set_update_events_delivered", "set_delete_events_delivered", "churn_reconciles", "churn_revisions_with_all_digit_hash_label", "populations_with_extreme_ordinals", "set_replaced_during_status_write_scenarios"},
 		DeathIsViolation: true})
 }
